@@ -78,8 +78,13 @@ def parse_function(header, lines):
             f.args.append(am.group(1))
     f.locals["_0"] = f.ret_type
     cur = None
+    f.debug = {}
     for l in lines[1:]:
         s = l.strip()
+        dm = re.match(r"debug (\w+) => (_\d+);$", s)
+        if dm:
+            f.debug.setdefault(dm.group(1), dm.group(2))
+            continue
         lm = re.match(r"let (?:mut )?(_\d+): (.*);$", s)
         if lm:
             f.locals[lm.group(1)] = lm.group(2)
@@ -654,6 +659,8 @@ class Interp:
             return a0
         if raw.endswith(" as Clone>::clone") or name.endswith("::to_vec") or name.endswith("::to_owned"):
             return a0   # value-equal copy: same term
+        if raw.startswith("Option::<") and raw.endswith(">::as_ref"):
+            return a0
         if name in ("std::ptr::eq", "Arc::ptr_eq"):
             x, y = self.as_u(args[0]), self.as_u(args[1])
             return x == y
@@ -738,6 +745,24 @@ class Interp:
                 st["pc_aux"].append(c.disc(o) == z3.If(z3.And(c.disc(src) == 1, rs[0].ret), z3.BitVecVal(1, 64), z3.BitVecVal(0, 64)))
                 st["pc_aux"].append(c.uf("proj_Some_0", [U], psort)(o) == payload)
                 return o
+        fm = re.match(r"Option::<(.*)>::is_some_and::<(\{closure@[^}]*\})>$", raw)
+        if fm and fm.group(2) in CLOSURES and isinstance(args[1], Tup):
+            psort = sort_of(fm.group(1))
+            src = self.as_u(a0)
+            payload = c.uf("proj_Some_0", [U], psort)(src)
+            cf = CLOSURES[fm.group(2)]
+            sub = Interp(cf, ctx=c, loop_bound=1, pure=self.pure, slices=self.slices)
+            sub.solver = self.solver
+
+            def cinit2(_it, sst, _t=args[1], _p=payload, _cf=cf):
+                sst["env"][_cf.args[0]] = _t
+                if len(_cf.args) > 1:
+                    sst["env"][_cf.args[1]] = _p
+            rs = [r for r in sub.run(cinit2) if r.status == "return"]
+            self.queries += sub.queries
+            if len(rs) == 1 and z3.is_bool(rs[0].ret):
+                st["pc_aux"] += list(rs[0].pc)
+                return z3.And(c.disc(src) == 1, rs[0].ret)
         if name.endswith("Option::ok_or") or re.search(r"Option::<.*>::ok_or$", raw) or name == "Option::ok_or":
             src = self.as_u(a0)
             r = c.fresh(U, "ok_or")
@@ -807,6 +832,15 @@ class Interp:
             p = c.uf("proj_Some_0", [U], z3.BitVecSort(64))(o)
             start, end = args[0].fields[0], args[0].fields[1]
             st["pc_aux"].append(z3.Or(c.disc(o) == 0, z3.And(c.disc(o) == 1, z3.UGE(p, start), z3.ULT(p, end))))
+            return o
+        # (a..b).step_by(k): one ARBITRARY element  a <= e < b, (e - a) % k == 0
+        if raw.endswith("Range<usize> as Iterator>::step_by") and isinstance(args[0], Tup):
+            return Tup([args[0].fields[0], args[0].fields[1], args[1]])
+        if raw.endswith("StepBy<std::ops::Range<usize>> as Iterator>::next") and isinstance(args[0], Tup) and len(args[0].fields) == 3:
+            o = c.fresh(U, "sbnext")
+            e_ = c.uf("proj_Some_0", [U], z3.BitVecSort(64))(o)
+            a_, b_, k_ = args[0].fields
+            st["pc_aux"].append(z3.Or(c.disc(o) == 0, z3.And(c.disc(o) == 1, z3.UGE(e_, a_), z3.ULT(e_, b_), k_ != 0, z3.URem(e_ - a_, k_) == 0)))
             return o
         if name.endswith("::windows") and len(args) == 2:
             r = c.fresh(U, "windows")
